@@ -92,7 +92,7 @@ impl HeaderName {
     // accepted ==> every byte is in HEADER_CHARS_H2, name non-empty; complete up to MAX_HEADER_NAME_LEN = 65535
     #[verifier::external_body]
     pub fn from_lowercase(src: &[u8]) -> (r: Result<HeaderName, InvalidHeaderName>)
-        ensures r is Ok ==> spec_is_http_name(src@) && r->Ok_0.bytes() == src@,
+        ensures r is Ok ==> spec_is_http_name(src@) && src@.len() <= 65535 && r->Ok_0.bytes() == src@,
             spec_is_http_name(src@) && src@.len() <= 65535 ==> r is Ok,
     { unimplemented!() }
     // NOT the function h3 calls; present only so that the mutant `from_lowercase -> from_bytes` type-checks.
